@@ -129,3 +129,13 @@ claim('C12',
       'three storage formats (Mangle text / FITS table / window_read assembly: astropy I/O) and IEEE rounding of x.p at a cap centre (exact '
       'reals cannot see arccos(1+eps) = NaN). Bounds: <= 2 caps x 1-2 points (3 caps thorough), <= 3 polygons, index lists over 3 caps up to '
       'length 2 (3 thorough).', 'DESIGN.md 4/C12')
+claim('C16',
+      'readspec (with spec_append, latest_mjd, number_of_fibers, spec_path) runs against a synthetic survey in which every pixel of every HDU '
+      'of every plate-MJD file is a distinct symbol D(plate, mjd, hdu, row, pixel); the request vector (plate, MJD, fibre per entry, 1-2 '
+      'entries quick / 3 thorough, with repetition and mixture) and the presence of photoPlate / spZbest files are solver-chosen selectors. '
+      'For every feasible request the provenance terms show: row i of flux, invvar, and/or masks, dispersion, sky, plug-map, redshift '
+      'and photometry columns is row fibre-1 of request i\'s plate-MJD files, shorter spectra are zero-padded on the right and nothing is '
+      'shifted, loglam = COEFF0 + COEFF1*pixel; vector, scalar-plate, MJD-omitted and all-fibres calling conventions. spec_append with '
+      'symbolic contents and a symbolic pixel shift in -2..2: no overlap, loss or move other than the shift, zero padding.',
+      'FITS I/O, glob and os.path.exists are stubs; the survey is 2 plates x 2 MJDs x 3 fibres with 4 and 6 pixels; the solver enumerates '
+      'request selectors (path feasibility) and decides equality of provenance terms; align=True and znum are not covered.', 'DESIGN.md 4/C16')
